@@ -234,6 +234,10 @@ def fitted(rng, name, d=None, opts=None, train=None, **kw):
   tr = train or training(rng, name, d=d, **kw)
   dd = tr['X'].shape[1]
   o = dict(opts) if opts is not None else options(rng, name, dd, len(set(tr['y'].tolist())))
+  if name == 'RCA_Supervised':
+    cs = o.get('chunk_size', 2)
+    cap = int(sum(c // cs for c in np.bincount(tr['y'][tr['y'] >= 0])))
+    o['n_chunks'] = max(1, min(o.get('n_chunks', 100), cap))
   for attempt in range(14):
     est = CLS[name](**o)
     try:
